@@ -18,6 +18,7 @@ package reference
 //@   ensures [C08] implies(ok, len(target.LocalAddr) > 0 && strings.HasPrefix(target.LocalAddr.String(), prefix))
 //@   ensures [C08] implies(ok && target.TargetableFromRangePtr != nil, rangeOverlaps(*target.TargetableFromRangePtr, originRng))
 //@   ensures [C08] implies(ok, schema.ActiveSelfRefsFromContext(ctx) || target.LocalAddr[0].String() != "self")
+//@   ensures [C08,name:never-the-attribute-being-edited] implies(ok && target.RangePtr != nil && !hasNestedMatches, !rangeOverlaps(*target.RangePtr, originRng) && !(target.RangePtr.Filename == originRng.Filename && target.RangePtr.End.Line == originRng.Start.Line))
 //@ contract reference.absTargetMatches (ctx, target, ref, prefix, outermostBodyRng, originRng) (ok)
 //@   ensures [C08] implies(ok, len(target.Addr) > 0 && strings.HasPrefix(target.Addr.String(), prefix))
 //@   ensures [C08] implies(ok, !referenceTargetIsInRange(target, outermostBodyRng))
